@@ -250,6 +250,8 @@ class Check:
             except Exception as x:
                 s.engine_errors.append('known-finding region of %s does not evaluate: %r' % (e.get('id'), x))
                 continue
+            if isinstance(reg, bool):
+                reg = z3.BoolVal(reg)
             regions.append((e, reg))
         outside = [z3.Not(r) for _, r in regions]
         res, model = solve(assume + [neg] + outside, timeout, stats=s.stats)
